@@ -33,7 +33,7 @@ ASSUMPTIONS = [
 # the core of the alphabet: every length-3 sequence over it is run in the thorough tier (every length <= 2 sequence over
 # the full alphabet is run in both tiers)
 CORE = ("matmat", "rmatmat", "to_dense", "transpose", "adjoint", "add", "scale", "matmul", "annotate", "to_none", "flatten",
-        "roundtrip", "getitem", "diag", "trace", "solve", "eig", "cg", "gmres", "lanczos", "arnoldi", "hutch")
+        "roundtrip", "getitem", "diag", "trace", "solve", "eig_alg", "inv_alg", "cg", "gmres", "lanczos", "arnoldi", "hutch")
 
 
 def findings(c01):
@@ -221,7 +221,7 @@ def run(ctx):
     tm = {}
     t0 = time.time()
     # ---------------- pool ----------------
-    pool, rejected = P.make_pool(rnd, ctx.budget(28, 60), present_c01=tuple(c01))
+    pool, rejected = P.make_pool(rnd, ctx.budget(28, 60), present_c01=tuple(set(c01) | ({"sliced_index_array_cpu"} if "registry_first_instance_decides" in present else set())))
     pool += special_entries()
     for e in pool:
         e["snaps"] = [S.snap(a) for a in e["arrays"]]
@@ -270,7 +270,7 @@ def run(ctx):
     t0 = time.time()
     # ---------------- alias sweep: composites with an argument-returning child in first / middle / last position ----------------
     sweep, sweep_rej = [], 0
-    for t in P.alias_prone_trees(rnd):
+    for t in P.alias_prone_trees(rnd) + P.reordered_slice_trees(rnd):
         try:
             e = P.entry_of(t)
             if not np.array_equal(e["base"].astype(np.complex128), T.dense(t)):
